@@ -58,9 +58,8 @@ struct IN_t {
   unsigned char sval[CAP];          // value stored in a non-NULL slot (opaque; small ints as pointers)
   int skl[CAP];                     // stale keylen left in a tombstone slot
   unsigned char opval;              // value passed to put
-  // state produced by the rehash CONTRACT stub (only used by h_put_trigger)
-  unsigned char grow;               // new capacity: CAP or 2*CAP
-  signed char slot2[MAXCAP];        // -1 NULL, s = the entry of old slot s moved here
+  // header of the over-loaded table h_put_trigger starts from (its slots are never read)
+  int used1;
 } IN;
 struct IN_t nondet_IN(void);
 
@@ -179,36 +178,21 @@ void stub_rehash_never(HashMap *m) {
 }
 
 // Contract of rehash() as established by h_rehash_modular (+ h_put for each insertion) and, in the
-// thorough tier, by h_rehash_real on the real code: afterwards the map is an arbitrary valid table
-// with the same dictionary, no tombstones, used == number of keys, load < 50%, capacity CAP or 2*CAP.
+// thorough tier, by h_rehash_real on the real code: afterwards the map is SOME valid tombstone-free
+// table with load < 50% (holding the same dictionary).  h_put_trigger checks what
+// get_or_insert_entry does around that call: the map it starts from only has to be at/above the
+// trigger (`used` is overwritten with any value at/above 70%); the stub asserts it is called once, on the operated map, at
+// >= 70% load, and swaps in an ARBITRARY table satisfying the contract (built by build() like any
+// other start state); the insertion that follows is then checked against THAT table's dictionary.
+// Dictionary(after put at trigger) = Dictionary(rehashed) + {key} = Dictionary(before) + {key}.
 static int stub_rehash_calls;
 static int stub_rehash_load;
+static HashMap rehashed;
 void stub_rehash_contract(HashMap *m) {
   VASSERT(m == &map, "rehash applied to the operated map");
   stub_rehash_calls++;
   stub_rehash_load = (m->used * 100) / m->capacity;
-  int cap2 = IN.grow ? 2 * CAP : CAP;
-  int seen[CAP];
-  for (int s = 0; s < CAP; s++) seen[s] = 0;
-  int n = 0;
-  for (int t = 0; t < MAXCAP; t++) {
-    verif_arena0[t].key = NULL; verif_arena0[t].keylen = 0; verif_arena0[t].val = NULL;
-    if (t >= cap2) continue;
-    int s = IN.slot2[t];
-    __CPROVER_assume(s >= -1 && s < CAP);
-    if (s < 0) continue;
-    __CPROVER_assume(B[s].key != NULL && B[s].key != TOMBSTONE);
-    verif_arena0[t] = B[s];
-    seen[s]++;
-    n++;
-  }
-  for (int s = 0; s < CAP; s++)
-    __CPROVER_assume(seen[s] == ((B[s].key != NULL && B[s].key != TOMBSTONE) ? 1 : 0));
-  m->buckets = verif_arena0;
-  m->capacity = cap2;
-  m->used = n;
-  __CPROVER_assume(inv(m));
-  __CPROVER_assume((n * 100) / cap2 < LOW_WATERMARK);
+  *m = rehashed;
 }
 
 // ---- put ------------------------------------------------------------------------------------
@@ -221,9 +205,17 @@ static void put_common(int mode) {
   __CPROVER_assume(inv(&map));
   int load0 = (map.used * 100) / map.capacity;
   if (mode == 0) __CPROVER_assume(load0 < HIGH_WATERMARK);
-  if (mode == 1) __CPROVER_assume(load0 >= HIGH_WATERMARK);
   Abs k0 = abs_at(&map, OPK), x0 = abs_at(&map, XK);
   int live0 = count_kind(&map, 0), tombs0 = count_kind(&map, -2);
+  if (mode == 1) {
+    __CPROVER_assume(tombs0 == 0 && load0 < LOW_WATERMARK);    // rehash contract
+    rehashed = map;
+    // over-loaded header: same capacity, `used` anywhere at/above the trigger (slots are not read
+    // before rehash is called; keeping buckets/capacity syntactically equal keeps cbmc's merge of
+    // the two branches of the trigger test cheap)
+    __CPROVER_assume(IN.used1 >= 0 && IN.used1 < CAP && (IN.used1 * 100) / CAP >= HIGH_WATERMARK);
+    map.used = IN.used1;
+  }
 
   hashmap_put2(&map, KEYS[OPK], KL[OPK], V(IN.opval));
 
@@ -234,14 +226,15 @@ static void put_common(int mode) {
   observer_untouched(x0, x1);
   VASSERT(count_kind(&map, 0) == live0 + (k0.present ? 0 : 1), "put: number of live keys grows by one exactly for a new key");
   VASSERT(count_kind(&map, -2) <= tombs0, "put: creates no tombstone");
-  if (load0 < 70) {
+  if (mode == 1) {
+    VASSERT(stub_rehash_calls == 1 && stub_rehash_load >= 70, "rehash called exactly once, at >=70% load");
+    VASSERT(map.buckets == B && map.capacity == CAP, "after the rebuild the insertion does not rebuild again");
+  } else if (load0 < 70) {
     VASSERT(map.buckets == B && map.capacity == CAP, "put below 70% load does not rebuild the table");
   } else {
     VASSERT(map.buckets != B, "put at >=70% load rebuilds the table");
     VASSERT(count_kind(&map, -2) == 0, "rebuilt table has no tombstones");
   }
-  if (mode == 1)
-    VASSERT(stub_rehash_calls == 1 && stub_rehash_load >= 70, "rehash called exactly once, at >=70% load");
   VASSERT(hashmap_get2(&map, KEYS[OPK], KL[OPK]) == V(IN.opval), "get2 after put2 returns the value put");
   VCOVER();
 }
